@@ -13,6 +13,7 @@ import (
 	"sort"
 	"strings"
 	"sync"
+	"time"
 )
 
 type replayResult struct {
@@ -22,11 +23,13 @@ type replayResult struct {
 	Findings []map[string]interface{} `json:"findings"`
 	Output   string                   `json:"output,omitempty"`
 	Iters    int                      `json:"iterations"`
+	Schema   [2]int                   `json:"schema_checked_skipped"`
 	Note     string                   `json:"note,omitempty"`
 }
 
 var replayCache = map[string]*replayResult{}
 var replayRuns int
+var replayDeadline time.Time
 
 func pkgOfFunc(V *Verifier, fn string) (pkgPath, typ string) {
 	// "codec.ReadString[uint16]" | "szse_bin.SzseBinary.Encode" | "szse_bin.SzseBinary" | "szse_bin.init#1" | "lemma/..."
@@ -132,6 +135,7 @@ func (c *checkCtx) genMessagesHarness(pkgPath string) (string, error) {
 	s := string(tmpl)
 	s = strings.ReplaceAll(s, "{{WIDTHS}}", strings.Join(widths, "\n"))
 	s = strings.ReplaceAll(s, "{{FILLS}}", strings.Join(fills, "\n"))
+	s = strings.ReplaceAll(s, "{{LAYOUTS}}", V.harnessLayouts(pkgPath))
 	s = strings.ReplaceAll(s, "{{PKG}}", p.Pkg.Name())
 	s = strings.ReplaceAll(s, "{{CTORS}}", strings.Join(ctors, "\n"))
 	s = strings.ReplaceAll(s, "{{DYNS}}", strings.Join(dyns, "\n"))
@@ -142,7 +146,7 @@ func (c *checkCtx) genMessagesHarness(pkgPath string) (string, error) {
 // related: the properties a harness finding may carry to count as a concrete violation of the property being checked.
 var relatedProps = map[string][]string{
 	"C01": {"C01", "C07", "C13", "C03"}, "C07": {"C07", "C01"}, "C15": {"C15"}, "C08": {"C08"}, "C09": {"C09", "C10"}, "C10": {"C10"},
-	"C11": {"C11"}, "C02": {"C02", "C01", "C13"}, "C03": {"C03"}, "C12": {"C01", "C12"}, "C13": {"C13"}, "C14": {"C14"}, "C16": {"C16"},
+	"C11": {"C11"}, "C02": {"C02", "C01", "C13", "C03"}, "C03": {"C03"}, "C12": {"C01", "C12"}, "C13": {"C13"}, "C14": {"C14"}, "C16": {"C16"},
 	"C17": {"C17"}, "C18": {"C18"}, "C19": {"C19"}, "C20": {"C20"}, "C04": {"C04"}, "C05": {"C05"}, "C06": {"C06"},
 }
 
@@ -195,10 +199,13 @@ func (c *checkCtx) runHarness(n int, pkgPath, typ string, seconds int) *replayRe
 		var parsed struct {
 			Findings []map[string]interface{} `json:"findings"`
 			Iters    int                      `json:"iterations"`
+			SC       int                      `json:"schema_checked"`
+			SS       int                      `json:"schema_skipped"`
 		}
 		json.Unmarshal(b, &parsed)
 		res.Findings = parsed.Findings
 		res.Iters = parsed.Iters
+		res.Schema = [2]int{parsed.SC, parsed.SS}
 	} else {
 		s := string(out)
 		if len(s) > 3000 {
@@ -229,13 +236,22 @@ func (c *checkCtx) replay(o *Obligation) (bool, interface{}) {
 	if pkgPath == "" {
 		return false, &replayResult{Note: "no replay harness for this obligation (lemma or abstract statement)"}
 	}
+	if typ == "sweep" {
+		typ = "" // every battery of the codec harness, then every type of every message package
+	}
+	if os.Getenv("VERIF_NOREPLAY") != "" {
+		return false, &replayResult{Note: "replay switched off (VERIF_NOREPLAY; used by the must-fail selftest, which only needs the verdict)"}
+	}
 	isCodec := strings.HasSuffix(pkgPath, "/codec")
 	key := pkgPath + "|" + typ
 	if r, ok := replayCache[key]; ok {
 		return c.matches(r), r
 	}
-	if replayRuns >= 6 {
-		return false, &replayResult{Note: "replay budget of this run exhausted (6 harness runs); see the other replay files of this run"}
+	if replayDeadline.IsZero() {
+		replayDeadline = time.Now().Add(180 * time.Second)
+	}
+	if replayRuns >= 6 || time.Now().After(replayDeadline) {
+		return false, &replayResult{Note: "replay budget of this run exhausted (6 harness runs or 180 s); see the other replay files of this run"}
 	}
 	replayRuns++
 	res := c.runHarness(replayRuns*10, pkgPath, typ, 40)
@@ -288,6 +304,7 @@ func mergeReplay(a, b *replayResult) *replayResult {
 		out.Harness += b.Harness
 	}
 	out.Iters = a.Iters + b.Iters
+	out.Schema = [2]int{a.Schema[0] + b.Schema[0], a.Schema[1] + b.Schema[1]}
 	if b.Output != "" {
 		out.Output += b.Output
 	}
